@@ -150,6 +150,52 @@ class A(Adapter):
             return "all_collected_and_vehicles_at_depot"
         return None
 
+    # ---- reach probes ----------------------------------------------------------------------------
+    def events(self, ps, action, s, ts, env, cfg):
+        dem1 = np.asarray(s.nodes.demands).astype(np.int64)
+        pos1 = np.asarray(s.vehicles.positions).astype(np.int64)
+        cap1 = np.asarray(s.vehicles.capacities).astype(np.int64)
+        if ps is None:
+            return ([f"reset_vehicles_{len(pos1)}"] + (["reset_sparse_reward"] if cfg.get("rew") == "sparse" else [])
+                    + (["reset_customer_no_vehicle_can_serve"] if (dem1[1:] > cap1.max(initial=0)).any() else []))
+        dem0 = np.asarray(ps.nodes.demands).astype(np.int64)
+        pos0 = np.asarray(ps.vehicles.positions).astype(np.int64)
+        cap0 = np.asarray(ps.vehicles.capacities).astype(np.int64)
+        acts = [int(a) for a in action]
+        ev = []
+        for v, a in enumerate(acts):
+            if a == DEPOT:
+                if int(pos0[v]) != DEPOT:
+                    fits = bool(((dem0 > 0) & (dem0 <= cap0[v])).any())
+                    ev.append("depot_return_while_customer_fits" if fits else "depot_return_with_load_spent")
+            elif not (0 <= a < len(dem0)) or dem0[a] <= 0:
+                ev.append("chosen_customer_already_served")
+            elif dem0[a] > cap0[v]:
+                ev.append("chosen_customer_exceeds_capacity")
+            elif acts.count(a) == 1:
+                ev.append("vehicle_served_customer" if int(pos1[v]) == a else "uncontended_valid_choice_not_served")
+                if int(pos1[v]) == a and int(dem0[a]) == int(cap0[v]):
+                    ev.append("demand_equals_remaining_capacity")
+                lt, ws, we = (float(np.asarray(x).reshape(-1)[i]) for x, i in ((s.vehicles.local_times, v), (s.windows.start, a), (s.windows.end, a)))
+                if int(pos1[v]) == a and (lt < ws or lt > we):
+                    ev.append("arrival_before_window_start" if lt < ws else "arrival_after_window_end")
+        for a in {a for a in acts if a != DEPOT and acts.count(a) >= 2}:
+            ev.append("two_vehicles_pick_same_customer" if acts.count(a) == 2 else "three_vehicles_pick_same_customer")
+            ev.append("contended_customer_served" if (pos1 == a).any() else "contended_customer_left_unserved")
+        if int((pos1 != DEPOT).sum()) >= 2:
+            ev.append("vehicles_serving_simultaneously_ge2")
+        if all(a == DEPOT for a in acts) and (pos0 == DEPOT).all():
+            ev.append("all_vehicles_idle_at_depot")
+        done, last = bool((dem1 == 0).all() and (pos1 == DEPOT).all()), int(s.step_count) - 1 >= self.horizon(env, cfg)
+        if (dem1 == 0).all() and not (dem0 == 0).all():
+            ev.append("last_customer_served")
+        if done:
+            near = int(s.step_count) == self.horizon(env, cfg)  # one step of slack left
+            ev.append("end_completed_at_last_allowed_step" if last else "end_completed_one_step_before_limit" if near else "end_completed")
+        elif last:
+            ev.append("end_step_limit_incomplete")
+        return ev
+
     # ---- C12 -----------------------------------------------------------------------------------
     def observe(self, s, obs, env, cfg):
         # The observation carries the instance (node coordinates, remaining demands, time windows, penalty
